@@ -177,8 +177,9 @@ def universe(tier):
 
 # result / option wrappers around a struct return: name -> (ok type, err type); '@' is the struct. 'o' is Option<@>.
 # (primitive error types are left out: the JS backend panics on them, which is a C15 finding)
-WRAPPERS = {"r": ("()", "@"), "k": ("@", "()"), "o": ("@", "()"), "u": ("u8", "@"), "w": ("u64", "@"), "e": ("@", "En")}
-ARM_BYTES = {"()": b"", "u8": bytes([0x7B]), "u64": bytes([8, 7, 6, 5, 4, 3, 2, 1]), "En": bytes([5, 0, 0, 0])}
+WRAPPERS = {"r": ("()", "@"), "k": ("@", "()"), "o": ("@", "()"), "u": ("u8", "@"), "w": ("u64", "@"), "e": ("@", "En"), "z": ("Zs", "@"), "v": ("@", "Zs"), "y": ("()", "Zs")}
+# (Zs is a field-less struct: like unit it occupies no payload bytes)
+ARM_BYTES = {"()": b"", "u8": bytes([0x7B]), "u64": bytes([8, 7, 6, 5, 4, 3, 2, 1]), "En": bytes([5, 0, 0, 0]), "Zs": b""}
 
 
 def bridge_source(structs, per_owner=60):
@@ -186,7 +187,7 @@ def bridge_source(structs, per_owner=60):
          "    #[diplomat::opaque]\n    pub struct Op(pub u32);",
          "    pub enum En { A = 0, B = 5, C = -6 }",
          "    pub struct In1 { pub x: u8 }", "    pub struct In2 { pub a: u8, pub b: u32 }", "    pub struct In3 { pub p: u64, pub q: u8, pub r: u16 }",
-         "    #[diplomat::out]\n    pub struct OIn1 { pub x: u32 }", "    #[diplomat::out]\n    pub struct OIn1b { pub y: OIn1 }"]
+         "    #[diplomat::out]\n    pub struct OIn1 { pub x: u32 }", "    #[diplomat::out]\n    pub struct OIn1b { pub y: OIn1 }", "    pub struct Zs {}"]
     for s in structs:
         lt = "<'a>" if s.lifetime else ""
         L.append("    %spub struct %s%s { %s }" % ("#[diplomat::out]\n    " if s.out else "", s.name, lt, ", ".join("pub %s: %s" % (n, f.bridge) for n, f in s.fields)))
@@ -218,7 +219,7 @@ def oracle_source(structs):
     L = ["#![allow(dead_code, non_snake_case)]", "use diplomat_runtime::{DiplomatOption, DiplomatResult};", "use core::mem::{size_of, align_of, offset_of};",
          "#[repr(C)] #[derive(Clone, Copy)] pub enum En { A = 0, B = 5, C = -6 }",
          "#[repr(C)] pub struct In1 { pub x: u8 }", "#[repr(C)] pub struct In2 { pub a: u8, pub b: u32 }", "#[repr(C)] pub struct In3 { pub p: u64, pub q: u8, pub r: u16 }",
-         "#[repr(C)] pub struct OIn1 { pub x: u32 }", "#[repr(C)] pub struct OIn1b { pub y: OIn1 }",
+         "#[repr(C)] pub struct OIn1 { pub x: u32 }", "#[repr(C)] pub struct OIn1b { pub y: OIn1 }", "#[repr(C)] pub struct Zs {}",
          "#[inline(never)] fn st<T>(name: &str, offs: &[usize]) { println!(\"\\\"{}\\\": {{\\\"size\\\": {}, \\\"align\\\": {}, \\\"offsets\\\": {:?}}},\", name, size_of::<T>(), align_of::<T>(), offs); }",
          "#[inline(never)] fn fl<T>(name: &str, flag: usize) { println!(\"\\\"{}\\\": {{\\\"size\\\": {}, \\\"align\\\": {}, \\\"flag\\\": {}}},\", name, size_of::<T>(), align_of::<T>(), flag); }"]
     for s in structs:
